@@ -272,6 +272,8 @@ def check_one(ctx, rtext, names, docs, exps, tag):
 
 def shard(ctx):
     rng = ctx.rng("c16")
+    if ctx.mine(0):
+        check_tagged(ctx)
     n = 9 if ctx.quick else 320
     for t in range(n):
         doc0 = gen.gen_doc(rng)
@@ -292,7 +294,87 @@ def shard(ctx):
             check_one(ctx, rtext, names, docs, exps, "rand")
 
 
+TAGGED_YAML = """Conditions:
+  IsProd: !Equals [!Ref Env, prod]
+  Both: !And [!Condition IsProd, !Not [!Equals [!Ref Env, dev]]]
+Resources:
+  b:
+    Type: AWS::S3::Bucket
+    Condition: IsProd
+    Properties:
+      Arn: !GetAtt role.Arn
+      ArnList: !GetAtt [role, Arn]
+      Name: !Sub "${AWS::StackName}-bucket"
+      Name2: !Sub ["${a}-x", {a: !Ref Env}]
+      Joined: !Join ["-", [a, !Ref Env, c]]
+      Pick: !Select [0, !GetAZs ""]
+      Zone: !If [IsProd, !FindInMap [m, k1, k2], !Ref "AWS::NoValue"]
+      Data: !Base64 payload
+      Imp: !ImportValue shared
+      Parts: !Split [",", "a,b"]
+"""
+TAGGED_RULES = """rule cond_and_first { Conditions.Both.'Fn::And'[0].Condition == "IsProd" }
+rule cond_not { Conditions.Both.'Fn::And'[1].'Fn::Not'[0].'Fn::Equals'[1] == "dev" }
+rule equals_ref { Conditions.IsProd.'Fn::Equals'[0].Ref == "Env" }
+rule resource_condition { Resources.b.Condition == "IsProd" }
+rule getatt_scalar { Resources.b.Properties.Arn.'Fn::GetAtt' == "role.Arn" }
+rule getatt_list { Resources.b.Properties.ArnList.'Fn::GetAtt'[1] == "Arn" }
+rule sub_scalar { Resources.b.Properties.Name.'Fn::Sub' == /bucket$/ }
+rule sub_list { Resources.b.Properties.Name2.'Fn::Sub'[1].a.Ref == "Env" }
+rule join_parts { Resources.b.Properties.Joined.'Fn::Join'[1][1].Ref == "Env" }
+rule select_azs { Resources.b.Properties.Pick.'Fn::Select'[1].'Fn::GetAZs' == "" }
+rule if_findinmap { Resources.b.Properties.Zone.'Fn::If'[1].'Fn::FindInMap'[2] == "k2" }
+rule if_novalue { Resources.b.Properties.Zone.'Fn::If'[2].Ref == "AWS::NoValue" }
+rule base64 { Resources.b.Properties.Data.'Fn::Base64' == "payload" }
+rule import_value { Resources.b.Properties.Imp.'Fn::ImportValue' == "shared" }
+rule split { Resources.b.Properties.Parts.'Fn::Split'[0] == "," }
+rule wrong_on_purpose { Resources.b.Properties.Imp.'Fn::ImportValue' == "other" }
+rule skipped when Resources.b.Properties.Nope exists { Resources.b.Type == "x" }
+"""
+
+
+def check_tagged(ctx):
+    """a template written with CloudFormation short-form tags: `test` (serde loader) must evaluate every rule to the status `validate`
+    (libyaml loader) assigns on the same text; expectations equal to validate's statuses are all met, in every rendering"""
+    r = ctx.w.run({"k": "cli", "argv": ["validate", "-r", "{S}/r.guard", "-d", "{S}/d.yaml", "--structured", "-S", "none", "-o", "json"], "files": {"r.guard": TAGGED_RULES, "d.yaml": TAGGED_YAML}})
+    if r.get("r") != "ok":
+        ctx.inconclusive("tagged-validate-error")
+        return
+    V = {k: v[0] for k, v in obs.report_statuses(json.loads(r["out"])[0]).items()}
+    names = re.findall(r"^rule (\w+)", TAGGED_RULES, re.M)
+    if set(V) != set(names) or V.get("wrong_on_purpose") != "FAIL" or V.get("skipped") != "SKIP" or list(V.values()).count("PASS") != len(names) - 2:
+        ctx.violation("tagged:validate-baseline", "validate on the short-form template does not give the designed statuses: %s" % V, {"kind": "tagged"})
+        return
+    body = "".join("    " + ln + "\n" for ln in TAGGED_YAML.rstrip("\n").split("\n"))
+    for variant, exps in (("as-validate", V), ("one-wrong", dict(V, getatt_list="FAIL"))):
+        spec = "- name: tagged\n  input:\n" + body + "  expectations:\n    rules:\n" + "".join("      %s: %s\n" % (n, exps[n]) for n in names)
+        want_exit = 0 if variant == "as-validate" else 7
+        for fmt in ("plain", "json", "yaml", "junit"):
+            for layout in ("files", "dir"):
+                argv = ["test"] + (["-r", "{S}/tg.guard", "-t", "{S}/tests/tg_tests.yaml"] if layout == "files" else ["-d", "{S}"]) + ([] if fmt == "plain" else ["-o", fmt])
+                rr = ctx.w.run({"k": "cli", "argv": argv, "files": {"tg.guard": TAGGED_RULES, "tests/tg_tests.yaml": spec}})
+                ctx.res.cases += 1
+                ctx.res.counts["tagged_input_runs"] += 1
+                if rr.get("r") != "ok":
+                    ctx.inconclusive("tagged-test-error")
+                    continue
+                if rr["code"] != want_exit:
+                    ctx.violation("tagged:%s:%s-%s:exit" % (variant, fmt, layout), "short-form template as test input, expectations %s: exit %s, expected %s\n%s" % (
+                        "= validate's statuses" if variant == "as-validate" else "with one deliberately wrong", rr["code"], want_exit, rr["out"][:600]), {"kind": "tagged"})
+                else:
+                    ctx.res.distinct.add(("tagged", variant, fmt, layout, rr["code"]))
+
+
 def replay(case, w):
+    if case.get("kind") == "tagged":
+        res = core.ShardResult()
+        found = []
+
+        class C2(core.Ctx):
+            def violation(self, sig, what, rp):
+                found.append(sig)
+        check_tagged(C2(w, 0, 1, 1, "quick", res, {"prop": "C16"}))
+        return not found, "violations: %s" % sorted(set(found))
     res = core.ShardResult()
     found = []
 
